@@ -29,6 +29,12 @@ func (a *Act) instr(st *State, ins ssa.Instruction) {
 		r := st.newRef()
 		a.store(st, r, t, d.Zero(t))
 		a.set(x, r)
+		if writeOnceCell(x) {
+			if a.top.onceCells == nil {
+				a.top.onceCells = map[Term]bool{}
+			}
+			a.top.onceCells[r] = true
+		}
 	case *ssa.FieldAddr:
 		p := a.val(x.X)
 		stT := derefType(x.X.Type())
@@ -115,6 +121,14 @@ func (a *Act) instr(st *State, ins ssa.Instruction) {
 			fail("storing non-first-class value")
 		}
 		a.storePtr(st, p, v.T, x.Pos(), "store")
+		if p.Loc == nil && a.top.onceCells[p.T] && d.SortOf(derefType(p.Typ)) != "" {
+			// a captured variable that is assigned exactly once (here) and only read afterwards, also by the
+			// closures that capture it: its value is fixed from now on, whatever later calls do to the heap
+			if a.top.onceVals == nil {
+				a.top.onceVals = map[Term]Term{}
+			}
+			a.top.onceVals[p.T] = v.T
+		}
 	case *ssa.Phi:
 	case *ssa.Extract:
 		t := a.val(x.Tuple)
@@ -648,4 +662,50 @@ func isMutexDefer(x *ssa.Defer) bool {
 		return true
 	}
 	return false
+}
+
+// writeOnceCell: a heap-allocated local (captured by closures) with exactly one store in the function and
+// only loads everywhere else, including inside the closures that capture it.
+func writeOnceCell(al *ssa.Alloc) bool {
+	if al.Referrers() == nil {
+		return false
+	}
+	stores := 0
+	var onlyLoads func(v ssa.Value, depth int) bool
+	onlyLoads = func(v ssa.Value, depth int) bool {
+		refs := v.Referrers()
+		if refs == nil || depth > 4 {
+			return false
+		}
+		for _, r := range *refs {
+			switch x := r.(type) {
+			case *ssa.UnOp:
+				if x.Op != token.MUL {
+					return false
+				}
+			case *ssa.DebugRef:
+			case *ssa.Store:
+				if x.Addr != v || depth > 0 || x.Block() != al.Block() {
+					return false
+				}
+				stores++
+			case *ssa.MakeClosure:
+				fn, ok := x.Fn.(*ssa.Function)
+				if !ok {
+					return false
+				}
+				for i, b := range x.Bindings {
+					if b == v {
+						if i >= len(fn.FreeVars) || !onlyLoads(fn.FreeVars[i], depth+1) {
+							return false
+						}
+					}
+				}
+			default:
+				return false
+			}
+		}
+		return true
+	}
+	return onlyLoads(al, 0) && stores == 1
 }
